@@ -11,12 +11,81 @@ use symrt::env::block_on;
 use symrt::{assume, check, check_bool, choice, cover, note, SymU};
 
 pub fn harnesses() -> Vec<Harness> {
-    vec![Harness {
+    vec![
+        Harness {
+            name: "c15_data_read_faults",
+            property: "C15",
+            f: c15_data_read_faults,
+            about: "data_get_public when one chunk of the data map (or of an upper data-map level) is missing or substituted by its holder: the read fails with an error, it never returns other or shortened data",
+        },
+        Harness {
         name: "c14_round_trip",
         property: "C14",
         f: c14_round_trip,
         about: "encrypt (pack_data_map over an ideal self-encryption, symbolic MAX_CHUNK_SIZE) then data_get_public from an in-memory record source with chunk fetches completing in a chosen order: bytes equal, every chunk within the maximum and content addressed, deterministic, too-small input rejected",
-    }]
+    },
+    ]
+}
+
+/// A storage node cannot make a read return other content: with one chunk withheld or replaced by other (validly
+/// encoded) chunk content under the same key, whichever position and whenever its fetch completes, the read is an error.
+fn c15_data_read_faults() {
+    shim::reset();
+    symrt::register_path_reset(shim::reset);
+    let t = shim::max_chunk_size();
+    assume(SymU::<64>::konst(PIECE as u64).sle(t).0);
+    let lens = [3 * PIECE, 4 * PIECE + 1, 10 * PIECE];
+    let len = lens[choice(lens.len())];
+    let data = data_of(len, 0);
+    let Ok((root, chunks)) = crate::self_encryption::encrypt(data.clone()) else {
+        check_bool("faults:setup_encrypts", false);
+        return;
+    };
+    let mut store = HashMap::new();
+    for c in chunks.iter().chain(std::iter::once(&root)) {
+        let (k, r) = record_of(c);
+        store.insert(k, r);
+    }
+    // the victim: the first, a middle or the last chunk of the list (content chunks and upper-level data-map chunks)
+    let n = chunks.len();
+    let victim = &chunks[[0, n / 2, n - 1][choice(3)]];
+    let (vkey, _) = record_of(victim);
+    let substituted = choice(2) == 1;
+    if substituted {
+        // other chunk content, validly encoded, served under the victim's key
+        let other = Chunk::new(Bytes::from(vec![0x5au8; 40]));
+        let (_, mut r) = record_of(&other);
+        r.key = vkey.clone();
+        store.insert(vkey.clone(), r);
+    } else {
+        store.remove(&vkey);
+    }
+    let batch = [1usize, 2, 64][choice(3)];
+    shim::set_batch_size(batch);
+    let n_req = 1 + n;
+    let delays: Vec<usize> = match choice(3) {
+        0 => vec![0; n_req],
+        1 => (0..n_req).map(|i| (n_req - i) % 67).collect(),
+        _ => (0..n_req).map(|i| (i * 7) % 5).collect(),
+    };
+    note(format!("len={len} chunks={n} victim={} batch={batch} delays={:?}", if substituted { "substituted" } else { "missing" }, &delays[..delays.len().min(6)]));
+    let c = Client { network: ClientNet { store: Mutex::new(store), asked: Mutex::new(vec![]), delays: Mutex::new(delays) } };
+    let got = block_on(c.data_get_public(*root.name()));
+    cover("read_done");
+    match got {
+        Ok(b) => {
+            if b == data {
+                // only possible if the victim was not needed: every chunk of the list is needed
+                check_bool("faults:read_cannot_succeed_without_the_withheld_chunk", false);
+            } else {
+                check_bool("faults:read_returns_an_error_never_other_or_shortened_data", false);
+            }
+        }
+        Err(_) => {
+            cover("read_failed");
+            check_bool("faults:read_fails", true);
+        }
+    }
 }
 
 /// content classes: 0 = pseudo-random bytes (all chunks differ), 1 = all zeros, 2 = periodic with the period of a piece
